@@ -711,6 +711,12 @@ pub struct VCfg {
     pub slow_ping: bool,
     /// events replayed before the explored history (contested starting states)
     pub seed: Vec<VEv>,
+    /// the connectivity test after an address change is enabled, with a waiting time (6 h) that no
+    /// history reaches: no test ever fails, so every vote still counts
+    pub autonat: bool,
+    /// the application subscribes to the event stream a second time (holding on to the first
+    /// receiver) and reads the new stream from then on
+    pub resub: bool,
 }
 
 const VOTE_DURATION: std::time::Duration = std::time::Duration::from_secs(30);
@@ -733,7 +739,24 @@ async fn run_c17_async(cfg: &VCfg, hist: &[VEv]) -> Outcome<VEv> {
     };
     let min = cfg.min;
     let ping_interval = if cfg.slow_ping { std::time::Duration::from_secs(60) } else { PING_INTERVAL };
-    let mut node = SNode::start(SNodeSpec { keyno: 50, listen, enr: None }, |b| { b.enr_peer_update_min(min); b.vote_duration(VOTE_DURATION); b.ping_interval(ping_interval); }, true).await;
+    let mut node = SNode::start(SNodeSpec { keyno: 50, listen, enr: None }, |b| {
+        b.enr_peer_update_min(min);
+        b.vote_duration(VOTE_DURATION);
+        b.ping_interval(ping_interval);
+        if cfg.autonat {
+            b.auto_nat_listen_duration(Some(std::time::Duration::from_secs(6 * 3600)));
+        }
+    }, true).await;
+    let mut _first_stream = None;
+    if cfg.resub {
+        let h = tokio::spawn(node.discv5.event_stream());
+        rt::settle().await;
+        if !h.is_finished() {
+            mc::machinery("event_stream() did not resolve (second subscription)");
+        }
+        let second = h.await.unwrap().expect("event stream");
+        _first_stream = node.events.replace(second);
+    }
     let nv = cfg.voters.len();
     let mut voters: Vec<(Enr, NodeAddress)> = vec![];
     let mut violation: Option<Violation> = None;
@@ -940,7 +963,7 @@ async fn run_c17_async(cfg: &VCfg, hist: &[VEv]) -> Outcome<VEv> {
 }
 
 pub fn debug_c17() {
-    let cfg = VCfg { dual: true, min: 2, voters: vec![0, 1, 0, 1], addrs: 3, with_fail: false, burst: false, slow_ping: false, seed: vec![] };
+    let cfg = VCfg { dual: true, min: 2, voters: vec![0, 1, 0, 1], addrs: 3, with_fail: false, burst: false, slow_ping: false, seed: vec![], autonat: false, resub: false };
     let h = vec![VEv::Pong(0, 0), VEv::PingRound, VEv::Pong(1, 1), VEv::PingRound, VEv::Pong(1, 0), VEv::Pong(0, 1)];
     for n in 1..=h.len() {
         let o = rt::run(run_c17_async(&cfg, &h[..n]));
@@ -952,22 +975,26 @@ pub fn run_c17() {
     let mut rep = Report::new("C17", "model_checking");
     let thorough = rep.thorough();
     let mut cfgs = vec![
-        VCfg { dual: false, min: 2, voters: vec![0, 0, 0, 0], addrs: 2, with_fail: false, burst: false, slow_ping: false, seed: vec![] },
-        VCfg { dual: false, min: 3, voters: vec![0, 0, 0, 0, 0], addrs: 2, with_fail: false, burst: false, slow_ping: false, seed: vec![] },
-        VCfg { dual: false, min: 2, voters: vec![0, 1, 2, 0], addrs: 2, with_fail: true, burst: false, slow_ping: false, seed: vec![] },
-        VCfg { dual: true, min: 2, voters: vec![0, 1, 0, 1], addrs: 3, with_fail: false, burst: false, slow_ping: false, seed: vec![] },
+        VCfg { dual: false, min: 2, voters: vec![0, 0, 0, 0], addrs: 2, with_fail: false, burst: false, slow_ping: false, seed: vec![], autonat: false, resub: false },
+        VCfg { dual: false, min: 3, voters: vec![0, 0, 0, 0, 0], addrs: 2, with_fail: false, burst: false, slow_ping: false, seed: vec![], autonat: false, resub: false },
+        VCfg { dual: false, min: 2, voters: vec![0, 1, 2, 0], addrs: 2, with_fail: true, burst: false, slow_ping: false, seed: vec![], autonat: false, resub: false },
+        VCfg { dual: true, min: 2, voters: vec![0, 1, 0, 1], addrs: 3, with_fail: false, burst: false, slow_ping: false, seed: vec![], autonat: false, resub: false },
     ];
-    cfgs.push(VCfg { dual: false, min: 2, voters: vec![0, 0, 1], addrs: 2, with_fail: false, burst: true, slow_ping: false, seed: vec![] });
-    cfgs.push(VCfg { dual: false, min: 2, voters: vec![0, 0, 0], addrs: 2, with_fail: false, burst: false, slow_ping: true, seed: vec![] });
+    cfgs.push(VCfg { dual: false, min: 2, voters: vec![0, 0, 1], addrs: 2, with_fail: false, burst: true, slow_ping: false, seed: vec![], autonat: false, resub: false });
+    cfgs.push(VCfg { dual: false, min: 2, voters: vec![0, 0, 0], addrs: 2, with_fail: false, burst: false, slow_ping: true, seed: vec![], autonat: false, resub: false });
     // dual stack with a minimum above 2 (a per-family halving of the minimum would show)
-    cfgs.push(VCfg { dual: true, min: 3, voters: vec![0, 0, 0, 0], addrs: 2, with_fail: false, burst: false, slow_ping: false, seed: vec![] });
+    cfgs.push(VCfg { dual: true, min: 3, voters: vec![0, 0, 0, 0], addrs: 2, with_fail: false, burst: false, slow_ping: false, seed: vec![], autonat: false, resub: false });
     // contested starting states: two addresses with 2:2 and 3:2 votes among five eligible voters
-    cfgs.push(VCfg { dual: false, min: 2, voters: vec![0, 0, 0, 0, 0], addrs: 3, with_fail: false, burst: false, slow_ping: false, seed: vec![VEv::Pong(0, 0), VEv::Pong(1, 1), VEv::Pong(2, 0), VEv::Pong(3, 1)] });
-    cfgs.push(VCfg { dual: false, min: 3, voters: vec![0, 0, 0, 0, 0], addrs: 3, with_fail: false, burst: false, slow_ping: false, seed: vec![VEv::Pong(0, 0), VEv::Pong(1, 1), VEv::Pong(2, 0), VEv::Pong(3, 1), VEv::Pong(4, 0), VEv::PingRound] });
+    cfgs.push(VCfg { dual: false, min: 2, voters: vec![0, 0, 0, 0, 0], addrs: 3, with_fail: false, burst: false, slow_ping: false, seed: vec![VEv::Pong(0, 0), VEv::Pong(1, 1), VEv::Pong(2, 0), VEv::Pong(3, 1)], autonat: false, resub: false });
+    cfgs.push(VCfg { dual: false, min: 3, voters: vec![0, 0, 0, 0, 0], addrs: 3, with_fail: false, burst: false, slow_ping: false, seed: vec![VEv::Pong(0, 0), VEv::Pong(1, 1), VEv::Pong(2, 0), VEv::Pong(3, 1), VEv::Pong(4, 0), VEv::PingRound], autonat: false, resub: false });
+    // connectivity test enabled (its waiting time is never reached): votes cast while it waits count
+    cfgs.push(VCfg { dual: false, min: 2, voters: vec![0, 0, 0, 0], addrs: 3, with_fail: false, burst: false, slow_ping: false, seed: vec![VEv::Pong(0, 0), VEv::Pong(1, 0), VEv::Pong(2, 1), VEv::Pong(3, 1)], autonat: true, resub: false });
+    // the application re-subscribed to the event stream
+    cfgs.push(VCfg { dual: false, min: 2, voters: vec![0, 0, 0], addrs: 2, with_fail: false, burst: false, slow_ping: false, seed: vec![], autonat: false, resub: true });
     if thorough {
-        cfgs.push(VCfg { dual: false, min: 2, voters: vec![0, 0, 0, 0, 0], addrs: 3, with_fail: false, burst: false, slow_ping: false, seed: vec![] });
-        cfgs.push(VCfg { dual: false, min: 3, voters: vec![0, 1, 2, 0, 1], addrs: 2, with_fail: true, burst: false, slow_ping: false, seed: vec![] });
-        cfgs.push(VCfg { dual: true, min: 3, voters: vec![0, 0, 1, 1, 2], addrs: 3, with_fail: true, burst: false, slow_ping: false, seed: vec![] });
+        cfgs.push(VCfg { dual: false, min: 2, voters: vec![0, 0, 0, 0, 0], addrs: 3, with_fail: false, burst: false, slow_ping: false, seed: vec![], autonat: false, resub: false });
+        cfgs.push(VCfg { dual: false, min: 3, voters: vec![0, 1, 2, 0, 1], addrs: 2, with_fail: true, burst: false, slow_ping: false, seed: vec![], autonat: false, resub: false });
+        cfgs.push(VCfg { dual: true, min: 3, voters: vec![0, 0, 1, 1, 2], addrs: 3, with_fail: true, burst: false, slow_ping: false, seed: vec![], autonat: false, resub: false });
     }
     let depth = if thorough { 8 } else { 6 };
     let budget = mc::budget(thorough, 50.0, 1.0);
